@@ -5,7 +5,14 @@
 (*   cases : recorded calls of the real code (mesonlib.Version,            *)
 (*           version_compare, version_compare_many, str.version_compare()  *)
 (*           through the interpreter, Range.__contains__/intersect/always, *)
-(*           version_check_to_range, version_compare_condition_with_min).  *)
+(*           version_check_to_range, version_compare_condition_with_min,   *)
+(*           and the entry points of VersionEntry: meson.version(),        *)
+(*           dependency / find_program / subproject `version:`,            *)
+(*           project(meson_version:), compiler and dependency versions),   *)
+(*           and whole feature-check programs (VersionFeature): nested     *)
+(*           if / elif / else on meson.version().version_compare() with    *)
+(*           FeatureNew / FeatureDeprecated uses and probes, observed per  *)
+(*           event and judged by folding the machine over the events.      *)
 (* Versions are tokenised *here* (Version!Tokenise), so the tokenisation   *)
 (* rule is part of what is judged.  Ranges returned by the code are        *)
 (* observed only through membership (`m`: the positions of dom that the    *)
@@ -13,7 +20,7 @@
 (* VersionRange.  One initial state per case; the judgement is made in the *)
 (* single step so that all TLC workers share the batch.                    *)
 (***************************************************************************)
-EXTENDS VersionRange, TLC, Json, IOUtils
+EXTENDS VersionFeature, TLC, Json, IOUtils
 
 File == JsonDeserialize(IOEnv.TRACE_FILE)
 Dom == File.dom
@@ -54,6 +61,40 @@ FromBad(c, clause, bad) == IF bad = {} THEN Ok(c) ELSE Verdict(c, clause, MinOf(
 
 Pick(cs, ps) == [n \in 1..Len(ps) |-> cs[ps[n]]]
 
+\* ---- feature-check programs: the machine of VersionFeature folded over the recorded events --------------------
+\* recorded event -> event of the machine
+FeatEvent(e) == CASE e.op \in {"if", "elif"} -> [op |-> e.op, cs |-> ParseAll(e.cs)]
+                  [] e.op = "use" -> [op |-> "use", kind |-> e.kind, f |-> FeatureVersion(e.f)]
+                  [] OTHER -> [op |-> e.op]
+UseClause(kind, warned) == IF kind = "new" THEN (IF warned THEN "FeatureNewWarningUnjustified" ELSE "FeatureNewWarningMissing")
+                           ELSE (IF warned THEN "FeatureDeprecatedWarningUnjustified" ELSE "FeatureDeprecatedWarningMissing")
+\* s: state before the event, r: FStep(s, event); the name of the violated clause or "ok"
+FeatJudge(e, s, r) ==
+    CASE e.op \in {"if", "elif"} ->
+           IF r.out.k = "none" THEN (IF e.ran \/ e.ans # "N" THEN "UnreachedClauseEvaluated" ELSE "ok")
+           ELSE IF e.ran # r.out.flag THEN "BranchTakenIffListHolds"
+           ELSE IF ClauseBad(J, V, r.s, ParseAll(e.cs), e.ans) # {} THEN (IF e.ans = "T" THEN "AlwaysTrueUnjustified" ELSE "AlwaysFalseUnjustified")
+           ELSE "ok"
+      [] e.op = "else" -> IF e.ran # r.s.live THEN "ElseBranchIffNoClauseTaken" ELSE "ok"
+      [] e.op = "use" ->
+           IF e.ran # s.live THEN "StatementRunsIffBlockLive"
+           ELSE IF ~s.live THEN (IF e.warned THEN "WarningFromSkippedBlock" ELSE "ok")
+           ELSE IF UseBad(J, V, s, s.target, e.kind, FeatureVersion(e.f), e.warned) # {} THEN UseClause(e.kind, e.warned)
+           ELSE "ok"
+      [] e.op = "probe" ->
+           IF e.ran # s.live THEN "StatementRunsIffBlockLive"
+           ELSE IF s.live /\ ProbeBad(J, V, s, LAMBDA j : j \in AsSet(e.m)) # {} THEN "TargetRangeInContext"
+           ELSE "ok"
+      [] OTHER -> "ok"
+RECURSIVE FeatRun(_, _, _)
+FeatRun(c, s, n) ==
+    IF n > Len(c.ev) THEN (IF Depth(s) = 0 THEN Ok(c) ELSE Verdict(c, "generator-structure", n))
+    ELSE LET ev == FeatEvent(c.ev[n])
+         IN IF ~Enabled(s, ev) THEN Verdict(c, "generator-structure", n)
+            ELSE LET r == FStep(s, ev)
+                     v == FeatJudge(c.ev[n], s, r)
+                 IN IF v # "ok" THEN Verdict(c, v, n) ELSE FeatRun(c, r.s, n + 1)
+
 Judge(c) ==
     CASE c.k = "row" ->   \* all six relations and the hash of dom[a] against every dom[j]
            FromBad(c, "Relations", { j \in J : ~CodeOk(Cmp(V(c.a), V(j)), c.codes[j]) })
@@ -75,6 +116,24 @@ Judge(c) ==
               ELSE Ok(c)
       [] c.k = "meson" -> \* 'v'.version_compare(c1, c2, ...) evaluated by the interpreter
            IF CompareMany(c.v, c.cs).ok = c.got THEN Ok(c) ELSE Verdict(c, "InterpreterVersionCompare", 0)
+      [] c.k = "entry" -> \* one call through an entry point of VersionEntry: e = the entry point, v = the receiver's
+                          \* version as the code reported it, cs = the constraint texts, got = the answer, each = the
+                          \* answers of the same entry point asked for every constraint alone (<<>> when not asked),
+                          \* pos = the class (-1 below / 0 equal / 1 above the receiver) the generator claims for every
+                          \* constraint version (<<>> when it claims nothing)
+           LET v == Tokenise(c.v)
+               ks == ParseAll(c.cs)
+               badPos == { x \in 1..Len(c.pos) : c.pos[x] # PosOf(v, ks[x]) }
+               badEach == { x \in 1..Len(c.each) : c.each[x] # Sat(v, ks[x]) }
+           IN IF ~(c.e \in Entries /\ Accepts(c.e, Len(ks))) THEN Verdict(c, "generator-arity", 0)
+              ELSE IF badPos # {} THEN Verdict(c, "generator-class", MinOf(badPos))
+              ELSE IF badEach # {} THEN Verdict(c, "ConstraintAgreesWithOrder", MinOf(badEach))
+              ELSE IF c.got # ListHolds(v, ks) THEN Verdict(c, "ListHoldsIffEachHolds", 0)
+              ELSE Ok(c)
+      [] c.k = "feat" ->  \* a feature-check program under project(meson_version: p) run by a meson of version own:
+                          \* per event what was observed (ran, ans of a clause, warned of a use, m of a probe);
+                          \* witness = the number of the first event that breaks a law
+           FeatRun(c, Start(c.own, c.p), 1)
       [] c.k = "in" ->    \* membership of every dom version in a constructed range
            FromBad(c, "Contains", ContainsBad(J, V, ToRng(c.r), LAMBDA j : j \in AsSet(c.m)))
       [] c.k = "isect" -> \* a.intersect(b): members of the result, and of a afterwards (not mutated)
